@@ -1,6 +1,8 @@
 """C05: JSON::Parse on arbitrary code-unit strings is memory-safe and terminates.
 Monitors: ASan + UBSan subset, exact-size heap buffers and PROT_NONE guard pages (read-only input), CPU watchdog,
 allocation ledger; deep nesting also on the default 8 MiB stack with the plain -O2 and -O0 builds."""
+import os
+
 import vlib
 
 
@@ -24,6 +26,12 @@ def run(tier, seed):
                               timeout_is_violation=True)
         v.absorb(res, byname, seed, floor_cases=n)
         v.absorb(res2, byname, seed, floor_cases=100)
+        fuzz_stats = None
+        if tier == "thorough":
+            seeds = [bytes([i % 4]) + d for i, d in enumerate([
+                b'[1,{"a":"\\u00e9\\ud83d\\ude00","b":[true,false,null,-1.5e3]}]', b'{"k":[[],{}],"n":18446744073709551615,"s":"\\"\\\\/\\b\\f\\n\\r\\t"}',
+                b' [ 0.1 , 1e-7 , -0 , 1E+22 ] ', b'{"a":{"a":{"a":{"a":[[[[1]]]]}}}}', b'["\\uD83D\\uDE00x", "\\u0041"]', b'tru', b'{"abc', b'[1,2'])]
+            fuzz_stats = vlib.fuzz_stage(v, "C05", "fuzz_json", seed, 4000000, 14, 512, seeds, wd, dictionary="json.dict")
         c = res.counters
         cov = {
             "evaluations": c.get("parses", 0) + res2.counters.get("parses", 0),
@@ -45,6 +53,7 @@ def run(tier, seed):
             "per_build_cases": {**res.per_cfg_cases, **{k + "(8MiB stack)": x for k, x in res2.per_cfg_cases.items()}},
             "builds": [x.describe() for x in cfgs],
             "cases_not_explored": res.unexplored + res2.unexplored,
+            "libfuzzer_stage": fuzz_stats if fuzz_stats else "thorough tier only",
         }
         return v.finish(cov, ["inputs <= 4 KiB, nesting <= 1024 (the statement promises 512)",
                               "a CPU-watchdog expiry (20 s on a <= 4 KiB input) counts as non-termination"])
